@@ -180,6 +180,12 @@ def exhaustive(tier):
                 if route == "iadd-own-value" and kind not in ("list", "typed-list"):
                     continue
                 yield {"mode": "same-as-default", "kind": kind, "place": place, "route": route}
+    # a nested section that became user-defined AS A WHOLE (map assignment, load, constructor keyword), then its leaves are
+    # reset one by one: each reset touches that leaf only - the section's own mark included
+    for how in ("assign-map", "load_tree", "loads-json", "ctor", "setitem-map"):
+        for depth in (1, 2):
+            for order in ("forward", "backward"):
+                yield {"mode": "section-reset", "how": how, "depth": depth, "order": order}
     # a load that does not MENTION a nested sub-configuration leaves that sub-configuration
     # as it was: values and user-defined marks, per format and load route
     for fmt in ("json", "yaml", "xml", "bson", "pickle"):
@@ -253,6 +259,56 @@ def _same_as_default_case(case, R):
     R.check(cc.is_value_defined(owner, "f") is True, "defined-iff", "same-as-default:" + route,
             lambda: "%s given its own default value %r through %s: not reported user-defined" % (".".join(path), value, route))
     R.check(cc.is_value_defined(cfg, "other") is False, "defined-iff", "same-as-default:others", "another field became user-defined")
+
+
+def _section_reset_case(case, R):
+    cc = sandbox._state["cc"]
+    how, depth, order = case["how"], case["depth"], case["order"]
+    schema = cc.Schema()
+    schema.name = cc.StringField(default="n")
+    sect = schema.db if depth == 1 else schema.site.db
+    sect.host = cc.StringField(default="localhost")
+    sect.port = cc.IntField(default=80)
+    sect.opts.level = cc.IntField(default=1)
+    key = "db" if depth == 1 else "site.db"
+    R.label("section-reset", "section-reset:" + how)
+    R.nontrivial = True
+    given = {"host": "h.example", "port": 8080, "opts": {"level": 5}}
+    tree = {"db": given} if depth == 1 else {"site": {"db": given}}
+    try:
+        if how == "ctor":
+            if depth != 1:
+                return
+            cfg = schema(db=given)
+        else:
+            cfg = schema()
+            if how == "assign-map":
+                setattr(cfg if depth == 1 else cfg.site, "db", given)
+            elif how == "setitem-map":
+                cfg[key] = given
+            elif how == "load_tree":
+                cfg.load_tree(tree)
+            else:
+                cfg.loads(cc.ConfigFormat.get("json").dumps(cfg, tree), "json")
+    except Exception as exc:
+        R.fail("crash", "section-reset:" + how, "giving the section a map raised %r" % (exc,))
+        return
+    paths = [key, key + ".host", key + ".port", key + ".opts", key + ".opts.level", "name"] + (["site"] if depth == 2 else [])
+
+    def status():
+        return {p: cc.is_value_defined(cfg, p) for p in paths}
+    leaves = [key + ".host", key + ".port", key + ".opts.level"]
+    for leaf in (leaves if order == "forward" else leaves[::-1]):
+        before = status()
+        owner_path, _, name = leaf.rpartition(".")
+        cc.reset_value(cfg[owner_path], name)
+        after = status()
+        want = dict(before)
+        want[leaf] = False
+        R.check(after == want, "reset", "section-reset:%s" % how,
+                lambda: "the section %s was given as a whole (%s); reset of %s changed the user-defined marks %r -> %r" % (key, how, leaf, before, after))
+        default = {"host": "localhost", "port": 80, "level": 1}[name]
+        R.check(cfg[leaf] == default, "reset", "section-reset:value", lambda: "%s reads %r after reset" % (leaf, cfg[leaf]))
 
 
 def _unmentioned_sub_case(case, R):
@@ -532,6 +588,8 @@ def _varying_case(case, R):
 def run_case(case, R):
     if case.get("mode") == "varying-default":
         return _varying_case(case, R)
+    if case.get("mode") == "section-reset":
+        return _section_reset_case(case, R)
     if case.get("mode") == "unmentioned-sub":
         return _unmentioned_sub_case(case, R)
     if case.get("mode") == "adopted-subconfig":
